@@ -50,6 +50,8 @@ def check(run):
         run.guard("C04.via.C01.1.token-source", cfg, lambda: _C01.rule_store(b3, F, cfg))
         b3i = run.borrow("C01", why="an exception (or $important rule) that differs from an earlier rule only by its tag must not be dropped as a duplicate: the untagged twin is the one that is active")
         run.guard("C04.via.C01.7.rule-identity", cfg, lambda: _C01.rule_identity(b3i, F, cfg))
+        btc = run.borrow("C01", why="monotonicity is claimed for every request, also those with 127 or more URL tokens")
+        run.guard("C04.via.C01.4.token-boundary", cfg, lambda: _C01.rule_token_cap_unbounded(btc, F, cfg))
 
 
 def rule_routing(run, F, cfg):
@@ -331,6 +333,19 @@ def rule_id_encoding(run, c, cfg):
     run.ob("C04.3.badfilter-id", "id-encoding:all-components-mixed", not missing,
            f"compute_filter_id mixes every component into the identity (missing: {missing})",
            config=cfg)
+    # text components enter as one strong 64-bit hash each. Folding them character by character with `h * 33 ^ c`
+    # is not collision resistant at all: a change in one character is undone by the next (`||aa2.com^` / `||acp.com^`)
+    weak = []
+    for p_ in ("modifier_option", "filter", "hostname"):
+        es = [e for b, i, params, e in mixes if p_ in params]
+        if not es or not all(re.search(r"utils::fast_hash\((arg:" + p_ + r"\b[^()]*|[^()]*arg:" + p_ + r"\b[^()]*)\)", e) for e in es):
+            weak.append(p_)
+    per_char = [strip_generics(t["callee"]) for b, t in c.calls(r"Chars<'a> as std::iter::Iterator>::next$|str::chars$|str::bytes$|str::as_bytes$")]
+    run.ob("C04.3.badfilter-id", "id-encoding:text-components-hashed", not weak and not per_char,
+           f"compute_filter_id mixes the pattern, the hostname and the modifier option as utils::fast_hash(text), never "
+           f"character by character (not hashed: {weak}; per-character traversal: {sorted(set(per_char))})", site=c.loc(0), config=cfg,
+           detail="with a per-character `hash * 33 ^ c` fold, 16319 of the 46656 rules `||xyz.com^` share their id with "
+                  "another one, and a $badfilter for one cancels the other")
     # the separators themselves: constant expressions, pairwise distinct, and outside the range of a character
     # (so that a marker cannot be mistaken for an element of a text component)
     def _const_eval(e):
